@@ -52,8 +52,8 @@ def meta_of(step, t, sent_has_delay=True):
 
 class C10(InterpProp):
     id = 'C10'
-    quick_cases = 150
-    thorough_cases = 3000
+    quick_cases = 500
+    thorough_cases = 15000
     n_ops = 24
     rule = ('random monitored charts (sending, notifying) with two recording listeners attached and a generated '
             'property statechart that becomes final at the k-th meta-event of a random subset of kinds (k random up to '
